@@ -21,6 +21,28 @@ type Gen struct {
 	muts     int
 	owe      bool // a `shape` line is owed at the end of the case
 	thorough bool
+	// fills beyond bigFillKeys keys by pattern (asc / desc / saw / rand) -> nops when the last one ended
+	bigFills map[string]int
+}
+
+var patternName = []string{"asc", "desc", "saw", "rand"}
+
+// bigFill notes a fill that left more than bigFillKeys keys and makes the full-range iteration part
+// of the case itself: `range u u` and `rrange u u` are judged by the monitor and compared with the
+// model (up to 2048 keys; the monitor's own periodic sweep, which also covers Iterate, runs for
+// every size).
+func (g *Gen) bigFill(pattern int) {
+	if g.n() <= bigFillKeys {
+		return
+	}
+	if g.n() <= 2048 {
+		g.do("range u u")
+		g.do("rrange u u")
+	}
+	if g.bigFills == nil {
+		g.bigFills = map[string]int{}
+	}
+	g.bigFills[patternName[pattern&3]] = g.nops()
 }
 
 func randomVariant(r *vlib.Rand) Variant {
@@ -238,6 +260,9 @@ func (g *Gen) fill(n, pattern, readEvery int) {
 			g.read()
 		}
 	}
+	if n > bigFillKeys {
+		g.bigFill(pattern)
+	}
 }
 
 // drainAll deletes every present key (0 ascending, 1 descending, 2 random order).
@@ -307,6 +332,7 @@ func (g *Gen) modeMix() {
 		for _, t := range g.order(u, 3)[:target] {
 			g.put(t)
 		}
+		g.bigFill(3)
 		budget = g.r.Range(60, 160)
 		if g.thorough {
 			budget *= 3
@@ -744,8 +770,11 @@ func (g *Gen) modeMalformed() {
 
 // ---------------------------------------------------------------------------------------------
 
-// genCase produces case number i of a run. The first cases are steering cases that make every run
-// reach 3 levels, all four leaf repairs, cascades and root collapse.
+// steerCases: the first cases of a run are steering cases that make every run reach 3 levels, all
+// four leaf repairs, cascades, root collapse and interior splits in every fill order.
+const steerCases = 4
+
+// genCase produces case number i of a run.
 func genCase(r *vlib.Rand, i int, thorough bool, slot **Gen) {
 	start := func(v Variant, mode string) *Gen {
 		g := newGen(r, v, mode, thorough)
@@ -765,7 +794,17 @@ func genCase(r *vlib.Rand, i int, thorough bool, slot **Gen) {
 	case i == 2:
 		g = start(Variant{Ord: "coarse", D: 3, Ptr: true}, "steer-c02")
 		g.modeC02(true)
-	case i == 3 && thorough:
+	case i == 3:
+		// every run: sawtooth and random-order fills through the first interior split and beyond
+		// (descending: case 1), each followed by the full-range iterations, then the same again on
+		// top of a half-drained tree
+		g = start(Variant{Cmp: true, Ord: "nat", D: 1}, "steer-fill")
+		g.fill(300, 2, 0)
+		g.drainAll(2, 0, 150)
+		g.fill(300, 3, 0)
+		g.drainAll(0, 0, 1000)
+		g.fill(200, 1, 0)
+	case i == 4 && thorough:
 		g = start(randomVariant(r), "huge")
 		g.modeHuge()
 	default:
